@@ -70,7 +70,7 @@ PROPS["C07"] = {
     "level_note": "Trusted: as C06. One recorded finding (F10: reserved symbol names).",
     "technique": "Lean 4 proof (mutual structural induction) + differential correspondence",
     "modules": ["GitSizer.Props.C07", "GitSizer.Props.Pins.Group"],
-    "engines": [{"name": "refs", "quick": 12000, "thorough": 1200000, "per_shard": 3000}, {"name": "output", "quick": 1200, "thorough": 120000, "per_shard": 200}],
+    "engines": [{"name": "refs", "quick": 12000, "thorough": 1200000, "per_shard": 3000}, {"name": "output", "quick": 1200, "thorough": 120000, "per_shard": 200}, {"name": "config", "quick": 3000, "thorough": 300000, "per_shard": 750}],
     "rule": "same generator as C06; symbols compared as multisets per reference, Groups() exactly.",
     "assumptions": ["tallies are the per-symbol counts of the categoriser's output (recordReferenceGroup is a counter increment)"],
 }
@@ -80,19 +80,19 @@ PROPS["C01"] = {
     "level_text": "Theorems (regenerated code): each record* adds exactly +1/+size/+entries with saturation; the aggregator records every delivered tree exactly once in any order. Correspondence+judge: every census number of the real sizes.Graph equals clamp(census) computed over Nat by the Lean spec. The aggregator core of sizes/graph.go is REGENERATED statement by statement (`Gen.Cmds.graphFlows`) and pinned to the reading the model was written against (`GraphCore.graph_core_pinned`); `every_entry_counted`, `finalize_records_once`.",
     "level_note": "Trusted: Lean kernel, go2lean; graph.go is modelled (Agg + Model/Graph) and tied by differential testing; that rev-list delivers exactly the reachable set is git's contract (validated end-to-end, not proved). Whole-run theorem `census_exact` (via `Graph.run_numbers`): for EVERY repository description and EVERY valid schedule the run completes and all census counters are the saturated true totals (non-vacuity: Props/T1 exhibits a concrete valid run). The model it is proved of is tied to graph.go by the graph engine.",
     "technique": "Lean 4 proof over regenerated source + aggregator theorem + differential correspondence with Nat-level spec judge",
-    "modules": ["GitSizer.Props.C01", "GitSizer.Props.T1", "GitSizer.Props.GraphCore"], "engines": [{"name": "graph", "quick": 6000, "thorough": 400000, "per_shard": 1500}, {"name": "e2e", "quick": 320, "thorough": 16000, "per_shard": 20}], "rule": _GRAPH_RULE,
+    "modules": ["GitSizer.Props.C01", "GitSizer.Props.T1", "GitSizer.Props.GraphCore"], "engines": [{"name": "graph", "quick": 6000, "thorough": 400000, "per_shard": 1500}, {"name": "e2e", "quick": 320, "thorough": 16000, "per_shard": 20}, {"name": "addr", "quick": 48, "thorough": 2400, "per_shard": 3}], "rule": _GRAPH_RULE,
 }
 PROPS["C02"] = {
     "level_text": "Theorems (regenerated code): AdjustMaxIfNecessary/IfPossible compute max for ALL pairs, record* apply them to commit size, parent count, tree entries, blob size; witness changes iff the maximum does. Judge: the four maxima of the real Graph equal the true maxima, witnesses attain them. `GraphCore.every_entry_counted` (regenerated statements of treeRecord.initialize): each of the four cases of the mode switch increments entryCount exactly once, no `continue`.",
     "level_note": "As C01. Parent counting in ParseCommit is covered under C16 (parsers engine).",
     "technique": "Lean 4 proof over regenerated source + differential correspondence",
-    "modules": ["GitSizer.Props.C02", "GitSizer.Props.T1", "GitSizer.Props.GraphCore"], "engines": [{"name": "graph", "quick": 6000, "thorough": 400000, "per_shard": 1500}] + [{"name": "counts", "quick": 12000, "thorough": 1200000, "per_shard": 20000}], "rule": _GRAPH_RULE,
+    "modules": ["GitSizer.Props.C02", "GitSizer.Props.T1", "GitSizer.Props.GraphCore"], "engines": [{"name": "graph", "quick": 6000, "thorough": 400000, "per_shard": 1500}] + [{"name": "counts", "quick": 12000, "thorough": 1200000, "per_shard": 20000}, {"name": "e2e", "quick": 240, "thorough": 12000, "per_shard": 20}], "rule": _GRAPH_RULE,
 }
 PROPS["C03"] = {
     "level_text": "Theorems: depthN is the longest parent chain (upper bound for every chain + explicit witness chain) for every DAG; every registered commit's memo = clamp32(depthN) for every schedule the code accepts (induction over the run); history/tag depth are maxima (regenerated). Judge: commit and tag memos and both maxima equal the Nat-level depth tables for every generated DAG and schedule. `GraphCore.commit_depth_over_all_parents` (regenerated statements of RegisterCommit): the depth is computed by ranging over ALL of commit.Parents.",
     "level_note": "As C01; the model has no timestamps, so independence of dates is by construction of the model and checked end-to-end with adversarial dates. Tag depth for arbitrary tag order is a theorem (`tag_memo_is_depth`, aggregator instance); `depth_maxima_exact` gives both maxima for every valid whole run.",
     "technique": "Lean 4 proof (induction over runs, longest-chain characterisation) + differential correspondence",
-    "modules": ["GitSizer.Props.C03", "GitSizer.Props.T1", "GitSizer.Props.GraphCore"], "engines": [{"name": "graph", "quick": 6000, "thorough": 400000, "per_shard": 1500}, {"name": "e2e", "quick": 320, "thorough": 16000, "per_shard": 20}], "rule": _GRAPH_RULE,
+    "modules": ["GitSizer.Props.C03", "GitSizer.Props.T1", "GitSizer.Props.GraphCore"], "engines": [{"name": "graph", "quick": 6000, "thorough": 400000, "per_shard": 1500}, {"name": "e2e", "quick": 320, "thorough": 16000, "per_shard": 20}, {"name": "addr", "quick": 48, "thorough": 2400, "per_shard": 3}], "rule": _GRAPH_RULE,
 }
 PROPS["C04"] = {
     "level_text": "Theorems: the regenerated add* methods are joins in a commutative monoid; clamp is a homomorphism from the true Nat algebra; hence for ANY delivery order every finalised tree's memo = clamp(true recursive expansion); recordTree maximises the seven dimensions independently; the code's single pass over a tree's entries in source order equals the model's base fold + subtree loop (`initialize_source_order`); `checkout_maxima_exact`: after every valid whole run each of the seven figures is the saturated maximum over all delivered trees of the true expansion. Judge: all tree memos and the seven maxima of the real Graph equal the clamped Nat expansion. `GraphCore.entry_kinds_feed_their_adders` (regenerated statements of treeRecord.initialize): each entry kind feeds its own add* method.",
@@ -214,11 +214,12 @@ _SRC_PINS = {
 }
 # the files that are also translated or have a more specific statement list (whole-file pins)
 for _p, _ms in {
-    "C01": ["Graph", "SizesFile"], "C02": ["Graph", "SizesFile", "CountsFile", "Commit"], "C03": ["Graph", "SizesFile", "Tag"],
-    "C04": ["Graph", "SizesFile", "Tree"], "C05": ["CountsFile", "SizesFile", "BatchHeader"], "C06": ["RefFilter"],
-    "C07": ["RefGroup"], "C08": ["SizesFile"], "C09": ["Graph"], "C10": ["Graph"], "C13": ["GitFile"],
+    "C01": ["Graph", "SizesFile", "GitFile", "MainFile"], "C02": ["Graph", "SizesFile", "CountsFile", "Commit", "BatchObjIter"], "C03": ["Graph", "SizesFile", "Tag", "GitFile"],
+    "C04": ["Graph", "SizesFile", "Tree"], "C05": ["CountsFile", "SizesFile", "BatchHeader"], "C06": ["RefFilter", "Gitconfig"],
+    "C07": ["RefGroup", "Gitconfig"], "C08": ["SizesFile", "Graph", "Tree"], "C09": ["Graph", "GitFile"], "C10": ["Graph", "GitFile"], "C13": ["GitFile"],
     "C14": ["IsattyEnabled", "IsattyDisabled"], "C15": ["RefGroup"],
-    "C16": ["Tree", "Commit", "Tag", "ObjHeadIter", "BatchHeader", "Reference"], "C17": ["Graph"],
+    "C11": ["MainFile"],
+    "C16": ["Tree", "Commit", "Tag", "ObjHeadIter", "BatchHeader", "Reference"], "C17": ["Graph", "MainFile", "GitFile"],
     "C18": ["MeterFile", "Graph"], "C19": ["Footnotes"],
 }.items():
     _SRC_PINS[_p] = _SRC_PINS.get(_p, []) + _ms
